@@ -64,7 +64,17 @@ fn run_regressions(ctx: &Ctx, id: &str) {
         let Ok(text) = std::fs::read_to_string(&f) else { continue };
         let Ok(v) = serde_json::from_str::<serde_json::Value>(&text) else { continue };
         let case = if v.get("case").is_some() { v["case"].clone() } else { v };
+        let before: u64 = ctx.known_hits.lock().unwrap().values().map(|x| x.0).sum::<u64>() + ctx.violations.lock().unwrap().len() as u64;
         replay_dispatch(ctx, id, &case);
+        let after: u64 = ctx.known_hits.lock().unwrap().values().map(|x| x.0).sum::<u64>() + ctx.violations.lock().unwrap().len() as u64;
+        // a regression input that no longer shows anything is not an error (the defect may have been repaired,
+        // or the fixture it is positioned on has changed); it is counted so that the evidence file tells
+        let mut st = Stats::new();
+        st.class(if after > before { "regress:reproduced" } else { "regress:not-reproduced" });
+        if after == before {
+            eprintln!("note: regression input {} did not reproduce anything", f.display());
+        }
+        ctx.merge(st);
     }
 }
 
